@@ -319,7 +319,30 @@ def loop_obligations(check, units, T):
                  'static unsigned long long phqv_bits(double a) { union { double d; unsigned long long u; } x; x.d = a; return x.u; }\n') % uf
         E.prologue = {lf.cname: ['phqv_base = %s; phqv_end = %s + %s; phqv_size = %s; phqv_oldbits = phqv_bits(%s[phqv_k]); phqv_uoldbits = phqv_bits(%s(%s[phqv_k]));' % (pv, pv, ps, ps, pv, uf, pv)]}
         off = '__CPROVER_POINTER_OFFSET(%s)' % pv
-        E.loop_annot = {lf.cname: [
+        # which kind of loop is it?  (the contract is generated for the loop as written: a cursor walking the buffer, or an index)
+        def find_for(stmts):
+            for s_ in stmts:
+                if isinstance(s_, tuple) and s_ and s_[0] == 'for':
+                    return s_
+                if isinstance(s_, tuple):
+                    for x_ in s_[1:]:
+                        if isinstance(x_, list):
+                            r_ = find_for(x_)
+                            if r_ is not None:
+                                return r_
+            return None
+        loop = find_for(lf.body)
+        index_var = None
+        if loop is not None and loop[2] is not None and loop[2][0] == 'bin' and loop[2][3][0] == 'var' and loop[2][3][1][0] == 'i':
+            index_var = loop[2][3][2]
+        if index_var is not None:
+            E.loop_annot = {lf.cname: [
+                '__CPROVER_assigns(%s, __CPROVER_object_whole(phqv_base))' % index_var,
+                '__CPROVER_loop_invariant(%s <= phqv_size && %s == phqv_base && %s == phqv_size)' % (index_var, pv, ps),
+                '__CPROVER_loop_invariant(*(unsigned long long *)(phqv_base + phqv_k) == ((phqv_k < %s) ? phqv_uoldbits : phqv_oldbits))' % index_var,
+                '__CPROVER_decreases(phqv_size - %s)' % index_var]}
+        else:
+          E.loop_annot = {lf.cname: [
             '__CPROVER_assigns(%s, __CPROVER_object_whole(phqv_base))' % pv,
             '__CPROVER_loop_invariant(__CPROVER_same_object(%s, phqv_base) && %s >= 0 && (unsigned long)%s <= phqv_size * sizeof(double) && %s %% sizeof(double) == 0)' % (pv, off, off, off),
             '__CPROVER_loop_invariant(*(unsigned long long *)(phqv_base + phqv_k) == ((phqv_k * sizeof(double) < (unsigned long)%s) ? phqv_uoldbits : phqv_oldbits))' % off,
